@@ -23,6 +23,7 @@ import (
 	"os"
 	"os/exec"
 	"path/filepath"
+	"runtime"
 	"strconv"
 	"strings"
 	"sync"
@@ -222,23 +223,6 @@ func (k *conc) absState(c schedCfg, alive map[string]string, lc, ec, qc uint64) 
 
 // ---------------------------------------------------------------------------------- runner
 
-type marker struct{ id int }
-
-func (m marker) EventType() serf.EventType { return serf.EventType(99) }
-func (m marker) String() string            { return fmt.Sprintf("verif-marker-%d", m.id) }
-
-type logSink struct{ ch chan string }
-
-func (l *logSink) Write(p []byte) (int, error) {
-	if bytes.Contains(p, []byte("Unknown event to snapshot")) {
-		select {
-		case l.ch <- string(p):
-		default:
-		}
-	}
-	return len(p), nil
-}
-
 type ticker interface{ Fire(time.Duration) bool }
 
 type image struct {
@@ -267,13 +251,11 @@ type runner struct {
 	shut    chan struct{}
 	clock   *serf.LamportClock
 	tk      ticker
-	sink    *logSink
 	left    bool
-	markers int
+	given   int // things handed to the stream loop in this session: events, ticks, leave
 	images  map[int]image // real operation index -> image after it (0 = at session start)
 	buffer  bool          // collect boundary lines instead of emitting them at once
 	lines   []line
-	syncOp  chan string
 }
 
 const waitLong = 60 * time.Second
@@ -336,6 +318,7 @@ func (r *runner) recover(im image) map[string]interface{} {
 	st := r.k.absState(r.s.Cfg, alive, uint64(sn.LastClock()), uint64(sn.LastEventClock()), uint64(sn.LastQueryClock()))
 	close(sh)
 	sn.Wait()
+	serf.VerifLoopForget(sn)
 	r.recC[key] = st
 	return st
 }
@@ -386,12 +369,6 @@ func (r *runner) after(op serf.VerifOp) {
 	} else {
 		r.tr.emit(act, obs)
 	}
-	if op.Op == "sync" && fileTag(op.File) == "cur" {
-		select {
-		case r.syncOp <- "sync":
-		default:
-		}
-	}
 }
 
 func (r *runner) newRoot(im *image) {
@@ -419,9 +396,8 @@ func (r *runner) start() {
 	r.clock = new(serf.LamportClock)
 	r.outCh = make(chan serf.Event, 8192)
 	r.shut = make(chan struct{})
-	r.sink = &logSink{ch: make(chan string, 64)}
-	r.syncOp = make(chan string, 4)
-	inCh, snap, err := serf.NewSnapshotter(r.path(), r.s.Cfg.Mcs, r.s.Cfg.Ral, log.New(r.sink, "", 0), r.clock, r.outCh, r.shut)
+	r.given = 0
+	inCh, snap, err := serf.NewSnapshotter(r.path(), r.s.Cfg.Mcs, r.s.Cfg.Ral, log.New(io.Discard, "", 0), r.clock, r.outCh, r.shut)
 	if err != nil {
 		h.Die("NewSnapshotter failed without an injected fault: %v", err)
 	}
@@ -454,6 +430,7 @@ func (r *runner) abandon() {
 	serf.VerifFS.SetFail(0)
 	close(r.shut)
 	r.snap.Wait()
+	serf.VerifLoopForget(r.snap)
 	r.snap = nil
 	os.RemoveAll(r.root)
 }
@@ -505,9 +482,6 @@ func sameEvent(a, b serf.Event) bool {
 	case *serf.Query:
 		y, ok := b.(*serf.Query)
 		return ok && x == y
-	case marker:
-		y, ok := b.(marker)
-		return ok && x.id == y.id
 	}
 	return false
 }
@@ -527,30 +501,25 @@ func (r *runner) waitOut(ev serf.Event) bool {
 	}
 }
 
-// barrier: returns when the stream loop has handled everything fed so far.
+// barrier: returns when the stream loop has taken and completely handled everything it was given (the
+// rewritten stream() counts its arrivals at the select and its departures from it, see the shim).
 func (r *runner) barrier() {
-	if r.left {
-		// after a leave events are dropped unseen; only ticks matter, and a tick with an unchanged clock is a
-		// no-op that the loop can only take when it is back at its select
-		if !r.tk.Fire(waitLong) {
-			h.Die("stream loop does not take ticks any more (hang)")
+	deadline := time.Now().Add(waitLong)
+	for i := 0; ; i++ {
+		idle, busy := serf.VerifLoopCounts(r.snap)
+		if busy == r.given && idle == busy+1 {
+			return
 		}
-		return
-	}
-	r.markers++
-	m := marker{r.markers}
-	r.inCh <- m
-	want := fmt.Sprintf("id:%d}", m.id)
-	deadline := time.After(waitLong)
-	for {
-		select {
-		case s := <-r.sink.ch:
-			if strings.Contains(s, want) {
-				r.waitOut(m)
-				return
-			}
-		case <-deadline:
-			h.Die("stream loop did not handle the marker within %v (hang)", waitLong)
+		if busy > r.given {
+			h.Die("stream loop woke up %d times for %d inputs", busy, r.given)
+		}
+		if time.Now().After(deadline) {
+			h.Die("stream loop did not finish its input within %v (hang): given=%d idle=%d busy=%d", waitLong, r.given, idle, busy)
+		}
+		if i < 2000 {
+			runtime.Gosched()
+		} else {
+			time.Sleep(100 * time.Microsecond)
 		}
 	}
 }
@@ -576,25 +545,20 @@ func (r *runner) input(st h.Step, crashAt int) (crashed bool, k int) {
 	case "feed":
 		ev := r.mkEvent(st)
 		r.inCh <- ev
+		r.given++
 		fwd = r.waitOut(ev)
-		if !r.left {
-			r.barrier()
-		}
+		r.barrier()
 	case "tick":
 		if !r.tk.Fire(waitLong) {
 			h.Die("stream loop did not take the tick (hang)")
 		}
+		r.given++
 		r.barrier()
 	case "leave":
 		r.snap.Leave()
+		r.given++
 		r.left = true
-		select {
-		case <-r.syncOp:
-		case <-time.After(waitLong):
-			h.Die("leave was not followed by a sync of the snapshot within %v", waitLong)
-		}
-		// the sync is the last thing the leave handler does to the snapshotter; no barrier tick here (a tick
-		// would run updateClock, which is not part of this input)
+		r.barrier()
 	case "shutdown":
 		close(r.shut)
 		r.snap.Wait()
